@@ -29,6 +29,12 @@ package memory
 //@   option safety slice,index
 //@   ensures @window err == nil && len(res) > 0 ==> 0 <= from && from <= to && to <= len(stores) && len(res) == to - from && to == min(len(stores), from + pageSize) && pageSize > 0
 //@   ensures @token err == nil && len(res) > 0 ==> (token == "" <==> to == len(stores)) && (token != "" ==> token == itoa(to))
+// the page is cut from the list as it was SORTED (by id): nothing is appended or re-filtered after the sort
+//@   ensures @cutFromSorted err == nil && len(res) > 0 ==> sortedLast
+//@   monitor order
+//@     ghost sortedLast = false
+//@     after call sort.SliceStable | sort.Slice : sortedLast = true
+//@     after call builtin.append : sortedLast = false
 
 // following tokens visits every index exactly once: pure arithmetic over the window contract above
 //@ lemma pages_partition(n int, p int, f int)
@@ -138,7 +144,7 @@ package memory
 
 // "either applies all ... or changes nothing": a refused request leaves every store's tuples and changelog as they were
 //@ func (*MemoryBackend).Write(s, ctx, store, deletes, writes, opts) (err)
-//@   property C12 C16
+//@   property C12 C16 C14
 //@   option nosafety
 //@   requires s != nil
 //@   requires @noNilRecords forall j int :: 0 <= j && j < len(s.tuples[store]) ==> s.tuples[store][j] != nil
@@ -149,6 +155,17 @@ package memory
 //@     ghost sanErr error = nil
 //@     before call memory.sanitizeTuplesWriteDelete args recs, dels, wrs, o : assert recs == s.tuples[store] && dels == deletes && wrs == writes
 //@     after call memory.sanitizeTuplesWriteDelete returning a, b, e : sanitized = true ; sanErr = e
+// the whole request — commit timestamp, validation against the current tuples, and the application — runs inside ONE
+// critical section of the tuples mutex held for writing: validation and application see the same state (C12), and
+// commit timestamps (from which the changelog ULIDs that ReadChanges pages by are derived) are taken in commit order (C14)
+//@   option monitor_props criticalSection=C12,C14
+//@   monitor criticalSection
+//@     ghost locked = false
+//@     after call (*sync.RWMutex).Lock args m : locked = true
+//@     after call (*sync.RWMutex).Unlock | (*sync.RWMutex).RLock | (*sync.RWMutex).RUnlock : locked = false
+//@     before call timestamppb.Now : assert locked
+//@     before call memory.sanitizeTuplesWriteDelete args _ : assert locked
+//@     before call builtin.mapupdate:other args m, k, v : assert locked
 
 // ------------------------------------------------------------------ C16 / C17: stores and models are kept per store id
 //@ func (*MemoryBackend).GetStore(s, ctx, storeID) (res, err)
